@@ -45,7 +45,7 @@ def run(ctx):
     if ctx.tier == "quick":
         kinds = kinds[:3] + rng.sample(kinds[3:], 3)
     for kind, norb, ne in kinds:
-        trial, wd, desc = trials.make(kind, rng, norb, ne, **wf.make_opts(kind))
+        trial, wd, desc = trials.make(kind, rng, norb, ne, **wf.make_opts(kind, rng))
         ham, plain = trials.make_ham(rng, norb, nchol=2)
         ham = trial._build_measurement_intermediates(dict(ham), wd)
         ronly = kind in trials.RESTRICTED_ONLY
